@@ -77,6 +77,20 @@ def subint_boundary_atoms():
     return out
 
 
+# arguments for the unary rounding functions only (not crossed in the binary grid): doubles between 1e15 and 2**52
+# (spacing 0.125 - 0.5) and floats between 2**21 and 2**23 that still have a fractional part, both signs, with
+# odd and even integer parts for the .5 ties; every lexical is exactly representable
+_UB_DOUBLE = ['1000000000000000.5', '1000000000000001.5', '1000000000000000.125', '1000000000000000.875', '1234567890123456.25',
+              '1125899906842624.25', '1125899906842623.875', '2251799813685247.75', '2251799813685247.5', '2251799813685248.5',
+              '3000000000000000.5', '3000000000000001.5', '4503599627370495.5', '4503599627370494.5', '4000000000000000.5']
+_UB_FLOAT = ['4194304.5', '4194303.5', '4194303.25', '2097152.25', '2097151.875', '6000000.5', '6000001.5', '8388605.5']
+UNARY_BOUNDARY = {'double': _UB_DOUBLE + ['-' + x for x in _UB_DOUBLE], 'float': _UB_FLOAT + ['-' + x for x in _UB_FLOAT]}
+
+
+def unary_boundary_atoms(types=('double', 'float')):
+    return [[t, lex] for t in types for lex in UNARY_BOUNDARY.get(t, [])]
+
+
 def boundary_atoms(types=NUMERIC_TYPES):
     return [[t, lex] for t in types for lex in BOUNDARY[t]]
 
@@ -159,9 +173,10 @@ def _dyadic_lex(bits):
 
 _DBL_SPECIAL = ['INF', '-INF', 'NaN', '-0', '0', '0.1', '-0.1', '1.0E21', '1.0E-7', '1.0E308', '5E-324', '-5E-324', '1.0E-200',
                 '-1.0E-200', '-1.0E308', '2.2250738585072014E-308',
-                '1.7976931348623157E308', '0.49999999999999994', '4503599627370496.5', '4503599627370497.5', '0.3', '1.1']
+                '1.7976931348623157E308', '0.49999999999999994', '4503599627370496.5', '4503599627370497.5', '0.3', '1.1'] + \
+    UNARY_BOUNDARY['double']
 _FLT_SPECIAL = ['INF', '-INF', 'NaN', '-0', '0', _F32_TENTH, _F32_THIRD, _F32_MAX, '16777216', '8388607.5', '8388606.5',
-                _F32_SMALL, '-' + _F32_SMALL, _F32_MIN_SUB, '-' + _F32_MIN_SUB, _F32_MIN_NORM, '-' + _F32_MAX]
+                _F32_SMALL, '-' + _F32_SMALL, _F32_MIN_SUB, '-' + _F32_MIN_SUB, _F32_MIN_NORM, '-' + _F32_MAX] + UNARY_BOUNDARY['float']
 
 
 _DYADIC53, _DYADIC24 = _dyadic_lex(53), _dyadic_lex(24)
